@@ -326,10 +326,19 @@ func LiveMPD(a *asset, mpdName string, cfg *ResponseConfig, drmCfg *drm.DrmConfi
 		return nil, fmt.Errorf("splitPeriods: %w", err)
 	}
 
+	lastStart, err := lastPeriodStartTime(mpd)
+	if err != nil {
+		return nil, fmt.Errorf("lastPeriodStartTime: %w", err)
+	}
 	if cfg.liveMPDType() == segmentNumber {
-		mpd.PublishTime, err = lastPeriodStartTime(mpd)
-		if err != nil {
-			return nil, fmt.Errorf("lastPeriodStartTime: %w", err)
+		mpd.PublishTime = lastStart
+	} else {
+		// A period is listed from its start, before any of its segments is available.
+		// That is a change of the MPD as well, so publishTime is not earlier than the start of the last period.
+		ptS, err1 := mpd.PublishTime.ConvertToSeconds()
+		lastStartS, err2 := lastStart.ConvertToSeconds()
+		if err1 == nil && err2 == nil && lastStartS > ptS {
+			mpd.PublishTime = lastStart
 		}
 	}
 
